@@ -83,7 +83,7 @@ def check_order(msgs_by_uuid, order, reference, problems, label):
     for u in msgs_by_uuid:
         if u not in got:
             problems.append("%s: task %s never returned as completed" % (label, u[:8]))
-        elif reference is not None and got[u] != reference[u]:
+        elif reference is not None and u in reference and got[u] != reference[u]:
             problems.append("%s: parsed task differs from the one parsed in emission order" % label)
     return got
 
@@ -133,11 +133,51 @@ def run_case(spec):
     exh_limit = 6 if tier == "quick" else 7
     res = {"evals": 0, "nontrivial": [], "counters": {}, "violations": [], "sets": {"order_classes": []}}
     small = rng.random() < 0.6
+    with_faults = rng.random() < 0.35
+    with_bad = with_faults and rng.random() < 0.6
     g = gen.ProgGen(rng, max_depth=rng.choice([2, 3]) if small else rng.choice([3, 4, 5]), max_nodes=rng.choice([3, 5]) if small else rng.choice([12, 30]),
-                    value_depth=0, fail_p=0.3, allow_tb=True, remote_vias=("same", "thread"), defer_p=0.3)
+                    value_depth=0, fail_p=0.5 if with_faults else 0.3, allow_tb=True, remote_vias=("same", "thread"), defer_p=0.3,
+                    extra_styles=(("pre_created",) if with_bad else ("ctx_finish_inside", "pre_created")) if with_faults else ())
     prog = g.program()
+    if spec["i"] % 40 == 7:
+        # breadth: one action with 250-400 direct children (inside another action in half of the cases)
+        g.budget = 10**6
+        a = g.act(99, force_style="with")
+        a["outcome"] = "ok"
+        a.pop("exc", None)
+        a["children"] = [g.msg() for _ in range(rng.choice([rng.randint(250, 270), rng.randint(300, 400)]))]
+        if rng.random() < 0.5:
+            b = g.act(99, force_style="with")
+            b["outcome"] = "ok"
+            b.pop("exc", None)
+            b["children"] = [g.msg(), a]
+            a = b
+        prog = [a]
+        res["counters"]["very_wide_tasks"] = 1
     tape = Tape()
     rec = Recorder(tape, "rec")
+    bad = None
+    if with_faults:
+        # messages eliot itself adds to a task when something around the logging fails are part of the task like any other:
+        # reports about a second, failing destination, and tracebacks of exception extractors that raise
+        from eliot import register_exception_extractor
+        from vf import excs, faults
+        from vf.tape import MaskedDestination
+        if with_bad:
+            # (not together with finish() inside the action's own context(): the report about a failed delivery of that end
+            # message is logged in the still-current finished action, i.e. after its end - not a well-formed task)
+            desc, pred = faults.gen_mask(rng, 40)
+            ename, fac = faults.exc_factory(rng)
+            bad = MaskedDestination(Tape(), "bad", pred, fac)
+        for name in ["Exception", "OSError", "LookupError", "ValueError", "KeyError", "UserError", "RuntimeError"]:
+            if rng.random() < 0.5:
+                cls = dict(excs.POOL, Exception=Exception, LookupError=LookupError)[name]
+
+                def ext(e, name=name):
+                    raise RuntimeError("extractor for %s failed" % name)
+                register_exception_extractor(cls, ext)
+        if bad is not None:
+            add_destinations(bad)
     add_destinations(rec)
     try:
         it0 = Interp(tape=tape)
@@ -145,6 +185,8 @@ def run_case(spec):
         it0.run(prog)
     finally:
         remove_destination(rec)
+        if bad is not None:
+            remove_destination(bad)
     import json as _json
     # as a log reader gets them: decoded from JSON text, so equal strings are distinct objects
     msgs = [_json.loads(_json.dumps(m)) for m in tape.msgs("rec")]
@@ -153,6 +195,8 @@ def run_case(spec):
         by_uuid.setdefault(m["task_uuid"], []).append(m)
     problems = []
     c = res["counters"]
+    c["destination_failure_reports_in_tasks"] = sum(1 for m in msgs if m.get("message_type") == "eliot:destination_failure")
+    c["extractor_failure_tracebacks_in_tasks"] = sum(1 for m in msgs if m.get("message_type") == "eliot:traceback" and "extractor for" in str(m.get("reason")))
     # reference: emission order
     ref = check_order(by_uuid, msgs, None, problems, "emission order") or {}
     c["orders_fed"] = 1
